@@ -237,7 +237,7 @@ def plan_pot(cases: Cases, behs: list, quick: bool, rnd: random.Random) -> None:
     for b in behs:
         by_pin.setdefault(b["pin"], []).append(b)
     plan = [("direct1", 14, 4), ("setup", 14, 3), ("direct2", 15, 2), ("direct3", 17, 2), ("var", 19, 4),
-            ("tuple2", 15, 2), ("tuple3fn", 15, 2), ("seqsum", 15, 2), ("discard", 15, 2), ("inbool", 15, 2)]
+            ("tuple2", 15, 2), ("tuple3fn", 15, 2), ("seqsum", 15, 2), ("discard", 15, 2), ("inbool", 15, 2), ("comp", 15, 2)]
     for shape, pin, passes in plan:
         key = cases.shape("pot/" + shape, FI.pot_shape(shape))
         meta = cases.shapes[key]
